@@ -262,6 +262,44 @@ def run(ctx):
         blks = [i_ for i_ in pb_.rblocks if pb_.blocks[i_].get("inl") == ck]
         return (pk_, pb_, blks) if blks else None
 
+    _hic = {}
+
+    def helper_in_caller(hk):
+        """A private helper with a single call site is judged where it runs: in its caller's body with the helper spliced in (its parameters are
+        then the caller's own values — the loop variable, the word).  Returns (caller key, body, offset of the helper's blocks) or None."""
+        if hk in _hic:
+            return _hic[hk]
+        res = None
+        hf = prog.fns[hk]
+        sites_ = prog.call_sites.get(hk, [])
+        if hf.get("kind") != "Closure" and not (hf.get("impl") or {}).get("trait") and len(sites_) == 1:
+            ck_ = sites_[0][0]
+            if prog.fns.get(ck_, {}).get("kind") != "Closure" and ck_ != hk:
+                try:
+                    pb_ = inlined_body(prog, ck_, stop=lambda g, hk=hk: g != hk)
+                    blks_ = [i_ for i_ in range(len(pb_.blocks)) if pb_.blocks[i_].get("inl") == hk]
+                    if blks_:
+                        res = (ck_, pb_, min(blks_))
+                except Exception:
+                    res = None
+        _hic[hk] = res
+        return res
+
+    def retry_in_caller(fk0_, i_, fn_):
+        """Second opinion for a site of a single-call-site helper that could not be discharged on the helper alone."""
+        hic = helper_in_caller(fk0_)
+        if not hic or i_ >= len(prog.fns[fk0_]["mir"]["blocks"]):
+            return None
+        ck_, pb_, off_ = hic
+        i2_ = off_ + i_
+        if i2_ >= len(pb_.blocks) or pb_.blocks[i2_]["term"]["k"] != prog.fns[fk0_]["mir"]["blocks"][i_]["term"]["k"]:
+            return None
+        try:
+            ok_, why_ = fn_(ck_, pb_, i2_, pb_.blocks[i2_]["term"])
+        except Exception:
+            return None
+        return (ok_, why_ + " (judged in its only caller %s)" % ck_.split("::")[-1]) if ok_ else None
+
     for fk0 in sorted(reach):
         fk = fk0
         b = prog.raw_body(fk)
@@ -288,6 +326,11 @@ def run(ctx):
                 n_total += 1
                 key = ob_key(fk0, kind)
                 ok, why = discharge_assert(prog, ctx, fk, b, i, kind, reph_fns, sub13, loop_bounds_ok, nonneg, sub_forms, word_param_pred, word_is_ascii)
+                if not ok and fk == fk0 and f.get("kind") != "Closure":
+                    alt = retry_in_caller(fk0, i, lambda ck_, pb_, i2_, t2_, kind=kind: discharge_assert(prog, ctx, ck_, pb_, i2_, kind, reph_fns, sub13, loop_bounds_ok, nonneg,
+                                                                                                sub_forms, word_param_pred, word_is_ascii))
+                    if alt:
+                        ok, why = alt
                 if ok:
                     r3.ok(key, why)
                 else:
@@ -303,6 +346,11 @@ def run(ctx):
                     key = ob_key(fk0, kind)
                     ok, why = discharge_call(prog, ctx, fk, b, i, t, n, R, roles, reph_fns, sub13, sub15, sub07, sub10, loop_bounds_ok, nonneg, sub_forms,
                                              word_param_pred, word_is_ascii, chk, r3)
+                    if not ok and fk == fk0 and f.get("kind") != "Closure":
+                        alt = retry_in_caller(fk0, i, lambda ck_, pb_, i2_, t2_, n=n: discharge_call(prog, ctx, ck_, pb_, i2_, t2_, n, R, roles, reph_fns, sub13, sub15, sub07, sub10,
+                                                                                                 loop_bounds_ok, nonneg, sub_forms, word_param_pred, word_is_ascii, chk, r3))
+                        if alt:
+                            ok, why = alt
                     if ok:
                         r3.ok(key, why)
                     else:
